@@ -118,6 +118,9 @@ def run(repo: Repo, tier: str) -> Report:
         uloop = td.region.parent
         okt = (uloop is not None and uloop.rng and uloop.rng[0].key() == f"len0[unique[{vx}]]"
                and td.guards[-1] == f"eq0[-1*unique[{vx}][{uloop.var}] + {vx}[{td.region.var}]]")
+        # ... or the outer loop runs over the distinct values themselves
+        okt = okt or (uloop is not None and uloop.rng is None and uloop.iter_key == f"unique[{vx}]"
+                      and td.guards[-1] in (f"eq0[-1*elem[unique[{vx}]] + {vx}[{td.region.var}]]", f"eq0[elem[unique[{vx}]] + -1*{vx}[{td.region.var}]]"))
         ob("R-FORMULA", "mk_variance_s", "t counts the occurrences of each distinct value over the whole series", bool(okt),
            f"increment of {tn} in {td.region.label()} inside {uloop.label() if uloop else None} under {td.guards[-1:]}", td.stmt)
         reset = [d for d in vs.scalars[tn] if not d.aug and d.region is uloop and d.rhs.equals(Rat.const(0))]
@@ -243,8 +246,20 @@ def run(repo: Repo, tier: str) -> Report:
                     pp = par.get(id(p_))
                     if isinstance(pp, ast.Compare) and len(pp.ops) == 1 and isinstance(pp.ops[0], (ast.Lt, ast.Gt, ast.Eq, ast.NotEq, ast.LtE, ast.GtE)):
                         sides = [pp.left] + pp.comparators
-                        if all(isinstance(s_, ast.Subscript) and isinstance(s_.value, ast.Name) and s_.value.id in aliases for s_ in sides):
+                        elem_al = {f_.target.id for f_ in ast.walk(k.node) if isinstance(f_, ast.For) and isinstance(f_.iter, ast.Name) and f_.iter.id in aliases
+                                   and isinstance(f_.target, ast.Name)}
+                        if all((isinstance(s_, ast.Subscript) and isinstance(s_.value, ast.Name) and s_.value.id in aliases)
+                               or (isinstance(s_, ast.Name) and s_.id in elem_al) for s_ in sides):
                             continue
+                if isinstance(p_, ast.For) and p_.iter is n and isinstance(p_.target, ast.Name):
+                    # iterating the (distinct) values: fine when the element is used only in order/equality comparisons with elements of the series
+                    lv = p_.target.id
+                    uses = [u for u in ast.walk(p_) if isinstance(u, ast.Name) and u.id == lv and isinstance(u.ctx, ast.Load)]
+                    if uses and all(isinstance(par.get(id(u)), ast.Compare) and len(par[id(u)].ops) == 1
+                                    and isinstance(par[id(u)].ops[0], (ast.Lt, ast.Gt, ast.Eq, ast.NotEq, ast.LtE, ast.GtE))
+                                    and all(o is u or (isinstance(o, ast.Subscript) and isinstance(o.value, ast.Name) and o.value.id in aliases)
+                                            for o in [par[id(u)].left] + par[id(u)].comparators) for u in uses):
+                        continue
                 bad.append(p_)
         ob("R-USESHAPE", fn, "the series is read only through pairwise order/equality comparisons of its own elements, unique and len", not bad and n_uses > 0,
            f"value-dependent use: `{norm_stmt(bad[0])}`" if bad else f"{n_uses} uses", bad[0] if bad else f"uses of {xp} in {fn}")
@@ -257,45 +272,72 @@ def run(repo: Repo, tier: str) -> Report:
     H_ = f"item1[mk_p_value[{Z_}]]"
     rets = [e for e in one.exits if e.kind == "return"]
     head = f"tuple[item1[mk_score[{x1}]];item0[mk_p_value[{Z_}]];item0[mk_sens_slope[{x1}]];"
-    okc = len(rets) == 2 and all(e.value.key().startswith(head) for e in rets)
+    okc = len(rets) >= 1 and all(e.value.key().startswith(head) for e in rets)
     ob("R-FORMULA", "mann_kendall_trend_1d", "returns (tau, p, slope, flag) composed as tau=mk_score, Z=mk_z_score(S, Var), p=mk_p_value(Z), slope=mk_sens_slope",
        okc, f"returns: {[e.value.key()[:160] for e in rets]}", rets[-1].stmt if rets else "return")
-    # decision tables
+
+    # decision tables: the flag is evaluated for each of the six abstract cases (significant or not) x (Z > 0, Z < 0, Z = 0) by walking the
+    # guarded definitions in program order - the shape of the control flow (early return, default + overwrite, if/elif) does not matter
+    def holds(g, h, sg, H, Z):
+        if g == H:
+            return h == 1
+        if g == f"not[{H}]":
+            return h == 0
+        for tag, val in (("gt0", sg == "+"), ("lt0", sg == "-"), ("ge0", sg in "+0"), ("le0", sg in "-0"), ("eq0", sg == "0"), ("ne0", sg != "0")):
+            if g == f"{tag}[{Z}]":
+                return val
+        return None
+
+    def flag_at(sc_, seq, h, sg, H, Z, name="trend"):
+        cur = None
+        for d in sorted(sc_.scalars.get(name, []), key=lambda d_: d_.seq):
+            if d.seq >= seq:
+                break
+            hs = [holds(g, h, sg, H, Z) for g in d.guards]
+            if None in hs:
+                return f"?({[g for g, v in zip(d.guards, hs) if v is None][0][:40]})"
+            if all(hs):
+                cur = d.rhs.key()
+        return cur
+
+    CASES = [(h, sg) for h in (0, 1) for sg in "+-0"]
+    want_t = {(0, "+"): "0", (0, "-"): "0", (0, "0"): "0", (1, "+"): "1", (1, "-"): "-1", (1, "0"): "0"}
+
     def table_1d():
         t = {}
-        for e in rets:
-            last = e.value.key()[len(head):-1] if e.value.key().startswith(head) else "?"
-            if list(e.guards) == [f"not[{H_}]"]:
-                t[("h0", "*")] = last
-        for d in one.scalars.get("trend", []):
-            g = list(d.guards)
-            if g and g[0] == H_:
-                rest = g[1:]
-                if rest == [f"gt0[{Z_}]"]:
-                    t[("h1", "+")] = d.rhs.key()
-                elif f"lt0[{Z_}]" in rest:
-                    t[("h1", "-")] = d.rhs.key()
-                elif f"ge0[{Z_}]" in rest and f"le0[{Z_}]" in rest:
-                    t[("h1", "0")] = d.rhs.key()
+        for h, sg in CASES:
+            val = "no return reached"
+            for e in sorted(rets, key=lambda e_: e_.seq):
+                hs = [holds(g, h, sg, H_, Z_) for g in e.guards]
+                if None in hs:
+                    val = "?"
+                    break
+                if all(hs):
+                    last = e.value.key()[len(head):-1] if e.value.key().startswith(head) else "?"
+                    val = flag_at(one, e.seq, h, sg, H_, Z_) if last == "trend" else last
+                    break
+            t[(h, sg)] = val
         return t
     t1 = table_1d()
-    want_t = {("h0", "*"): "0", ("h1", "+"): "1", ("h1", "-"): "-1", ("h1", "0"): "0"}
     ob("R-FORMULA", "mann_kendall_trend_1d", "flag: 0 when not significant, +1 for Z > 0, -1 for Z < 0, 0 for Z = 0", t1 == want_t,
-       f"decision table {t1}; required {want_t}", "trend flag (1-d)")
+       f"decision table (significant, sign Z) -> flag: {t1}; required {want_t}", "trend flag (1-d)")
     yxt = SC["mann_kendall_trend_yxt"]
+    flag_stores = [s_ for s_ in yxt.stores if s_.idx_key.endswith(",3")]
     t3 = {}
-    for d in yxt.scalars.get("trend", []):
-        g = [x_ for x_ in d.guards]
-        if not g:
-            t3[("h0", "*")] = d.rhs.key()
-            t3.setdefault(("h1", "0"), d.rhs.key())
-        elif g[0].startswith("item1[mk_p_value["):
-            if any(x_.startswith("gt0[mk_z_score[") for x_ in g[1:]):
-                t3[("h1", "+")] = d.rhs.key()
-            elif any(x_.startswith("lt0[mk_z_score[") for x_ in g[1:]):
-                t3[("h1", "-")] = d.rhs.key()
-    ob("R-SIBLING(trend)", "mann_kendall_trend_yxt", "the 3-d driver uses the same decision table as the 1-d driver", t3 == want_t,
-       f"decision table {t3}; required {want_t}", "trend flag (3-d)")
+    deleg = False
+    if len(flag_stores) == 1:
+        fs = flag_stores[0]
+        import re as _re
+        if _re.fullmatch(r"item3\[mann_kendall_trend_1d\[.*\]\]", fs.rhs.key()) and not fs.guards:
+            deleg = True        # the 3-d driver delegates the pixel to the 1-d driver: same table by construction
+        else:
+            gs = {g for d in yxt.scalars.get("trend", []) for g in d.guards}
+            H3 = next((g for g in gs if g.startswith("item1[mk_p_value[")), None)
+            Z3 = H3[len("item1[mk_p_value["):-2] if H3 else None
+            for h, sg in CASES:
+                t3[(h, sg)] = flag_at(yxt, fs.seq, h, sg, H3, Z3) if fs.rhs.key() == "trend" and H3 else fs.rhs.key()
+    ob("R-SIBLING(trend)", "mann_kendall_trend_yxt", "the 3-d driver uses the same decision table as the 1-d driver", deleg or t3 == want_t,
+       f"decision table {t3}; required {want_t}; flag stores {[norm_stmt(s_.stmt) for s_ in flag_stores]}", flag_stores[0].stmt if flag_stores else "trend flag (3-d)")
 
     # ------------------------------------------------------------ gufunc wrappers
     for fn in ("_mann_kendall_trend_gu", "_mann_kendall_trend_gu_nd"):
